@@ -500,6 +500,7 @@ func main() {
 	writeIfChanged(filepath.Join(*out, "Consts.lean"), genConsts(consts))
 	writeIfChanged(filepath.Join(*out, "Arith.lean"), genArith(*repo, consts))
 	writeIfChanged(filepath.Join(*out, "Facts.lean"), genFacts(*repo))
+	writeIfChanged(filepath.Join(*out, "FactsC15.lean"), genFactsC15(*repo)) // C15: see facts_c15.go
 }
 
 type constKV struct {
